@@ -2,8 +2,9 @@
    Object: matrix/matrix3.go, matrix/vector3.go and ciexyz/ciexyz.go as expression trees (Mat3G.v),
    instantiated over the reals here (the algebraic laws) and over Flocq binary64/binary32 in Mat3F.v,
    where they are compared bit for bit with the implementation on every run. *)
-From Coq Require Import Reals.
-From PrismV Require Import Mat.Mat3G Mat.Mat3.
+From Coq Require Import Reals ZArith.
+From Flocq Require Import Core IEEE754.BinarySingleNaN.
+From PrismV Require Import Num.F64 Mat.Mat3G Mat.Mat3 Mat.Mat3F Mat.Dot3.
 Open Scope R_scope.
 
 Theorem C20_inverse_is_two_sided : forall m, det m <> 0 -> mulM (inverse m) m = ident /\ mulM m (inverse m) = ident.
@@ -41,3 +42,18 @@ Theorem C20_singular_determinant_partial : forall a b,
   (det (M (V 0 0 0) a b) = 0 /\ det (M a (V 0 0 0) b) = 0 /\ det (M a b (V 0 0 0)) = 0).
 Proof. exact (fun a b => conj (det_repeated_column a b) (det_zero_column a b)). Qed.
 Print Assumptions C20_singular_determinant_partial.
+
+(* float64 closeness of the matrix-vector product (partial: one application; the 1e-9 x condition-number
+   closeness of Inverse and of the generated matrices is judged by the oracle): for EVERY finite matrix
+   and vector whose nine products stay below 2^K, each component of MulV is finite and differs from the
+   exact row-by-column sum by at most ((1+u)^3-1)(|P1|+|P2|) + ((1+u)^2-1)|P3| + 13 eta, u = 2^-53 *)
+Theorem C20_mulv_float64_close_partial : forall (K : Z) (m : matF) (v : vecF),
+  (-1074 <= K)%Z /\ (K + 2 < 1024)%Z -> finM m -> finV v -> prodsV K m v ->
+  forall (r : vecF -> f64), (r = @v0 f64 \/ r = @v1 f64 \/ r = @v2 f64) ->
+  let P1 := (BinarySingleNaN.B2R (r (c0 m)) * BinarySingleNaN.B2R (v0 v))%R in
+  let P2 := (BinarySingleNaN.B2R (r (c1 m)) * BinarySingleNaN.B2R (v1 v))%R in
+  let P3 := (BinarySingleNaN.B2R (r (c2 m)) * BinarySingleNaN.B2R (v2 v))%R in
+  BinarySingleNaN.is_finite (r (mulVF m v)) = true /\
+  (Rabs (BinarySingleNaN.B2R (r (mulVF m v)) - (P1 + P2 + P3)) <= bound3 u64 eta64 P1 P2 P3)%R.
+Proof. exact mulVF_close. Qed.
+Print Assumptions C20_mulv_float64_close_partial.
